@@ -22,31 +22,73 @@ theorem port_triple_range_accepted :
 theorem port_proto_tail_accepted :
     (parsePort "80/tcp/x".toList).isSome = true ∧ splitProtoPort "80/tcp/x".toList = ("tcp".toList, "80".toList) := by decide
 
-/-- so "whatever is not `parsePortRange`-shaped is rejected" fails: a string with two dashes is not the rendering
-of any range (a rendered range has at most one dash) yet `parsePortRange` accepts it -/
+/-- a rendered range splits on '-' into at most two parts -/
+theorem range_split_le2 (r : Spec.Range) : (splitOn '-' r.render).length ≤ 2 := by
+  have hd : ∀ n : Spec.Num, ∀ x ∈ n.render, x ≠ '-' := fun n x hx => (digit_ne (CV.Short.Num.render_digits n x hx)).1
+  obtain ⟨lo, hi⟩ := r
+  cases hi with
+  | none => simp [Spec.Range.render, splitOn_clean _ _ (hd lo)]
+  | some hi => simp [Spec.Range.render, splitOn_append _ _ _ (hd lo), splitOn_clean _ _ (hd hi)]
+
+/-- so "whatever is not `parsePortRange`-shaped is rejected" fails -/
 theorem range_render_one_dash_neg :
     ¬ (∀ s : Str, (∀ r : Spec.Range, r.render ≠ s) → parsePortRange s = none) := by
   intro h
-  have h2 := h "80-81-82".toList
   have h3 : parsePortRange "80-81-82".toList = some (80, 81) := by decide
-  rw [h2] at h3
+  rw [h "80-81-82".toList ?_] at h3
   · cases h3
   · intro r hr
-    -- a rendered range splits on '-' into at most two parts
-    have : (splitOn '-' r.render).length ≤ 2 := by
-      have hd : ∀ n : Spec.Num, ∀ x ∈ n.render, x ≠ '-' := fun n x hx => (digit_ne (CV.Short.Num.render_digits n x hx)).1
-      obtain ⟨lo, hi⟩ := r
-      cases hi with
-      | none => simp [Spec.Range.render, splitOn_clean _ _ (hd lo)]
-      | some hi => simp [Spec.Range.render, splitOn_append _ _ _ (hd lo), splitOn_clean _ _ (hd hi)]
+    have := range_split_le2 r
     rw [hr] at this
     revert this
     decide
 
-/-- a volume spec with four sections whose third is a single letter is accepted, and both option sections are
-dropped: `vol:/b:z:ro` loads as a plain read-write volume (the drive-letter rule fires on the option section) -/
-theorem volume_letter_section_accepted :
-    parseVolume "vol:/b:z:ro".toList
+/-- the full-strength near-miss statement is false on the unchanged tree: "every port string that is not the rendering of a
+well-formed `PortSpec` is rejected" — `80-81-82` is the rendering of no AST at all (a rendered spec without ':' and '/'
+is one range, and a range has at most one dash), yet it is accepted -/
+theorem port_grammar_complement_neg :
+    ¬ (∀ s : Str, (∀ a : Spec.PortSpec, a.render ≠ s) → parsePort s = none) := by
+  intro h
+  have hs : (parsePort "80-81-82".toList).isSome = true := by decide
+  rw [h "80-81-82".toList ?_] at hs
+  · cases hs
+  · intro a hr
+    have hc : ¬ ':' ∈ "80-81-82".toList := by decide
+    have hsl : ¬ '/' ∈ "80-81-82".toList := by decide
+    rw [← hr] at hc hsl
+    obtain ⟨ip, host, cont, proto⟩ := a
+    cases ip with
+    | some i => cases host <;> simp [Spec.PortSpec.render] at hc
+    | none =>
+      cases host with
+      | some r => simp [Spec.PortSpec.render] at hc
+      | none =>
+        cases proto with
+        | some p => simp [Spec.PortSpec.render] at hsl
+        | none =>
+          simp only [Spec.PortSpec.render, List.append_nil] at hr
+          have := range_split_le2 cont
+          rw [hr] at this
+          revert this
+          decide
+
+/-! ### pre-fix behaviour of `format.ParseVolume` (before the `fix:` commit on the drive-letter rule), kept as a witness -/
+
+/-- the scanning loop as it was: the drive-letter rule fired in every section -/
+def scanPre : Str → Str → Vol → Option Vol
+  | [], _, v => some v
+  | ch :: r, buf, v =>
+    if isWindowsDrive buf ch then scanPre r (buf ++ [ch]) v
+    else if ch = ':' || ch = NUL then
+      match populate (ch = NUL) buf v with
+      | none => none
+      | some v' => scanPre r [] v'
+    else scanPre r (buf ++ [ch]) v
+
+/-- before the repair a four-section spec whose third section is a single letter was accepted and both option
+sections were dropped: `vol:/b:z:ro` loaded as a plain read-write volume -/
+theorem volume_letter_section_accepted_pre_fix :
+    (scanPre ("vol:/b:z:ro".toList ++ [NUL]) [] {}).map populateType
       = some { type := "volume".toList, source := "vol".toList, target := "/b".toList, readOnly := false, bind := none, volume := some false } := by
   decide
 
